@@ -113,10 +113,13 @@ def check_cacg(run, A):
     n_floor = 0
     ok_all = bool(alts)
     for a in alts:
-        if not is_call_to(a, 'numpy.maximum'):
+        if is_call_to(a, 'numpy.clip') and const_val(call_arg(a, 2, 'a_max')) is None:
+            x, fl = call_arg(a, 0, 'a'), call_arg(a, 1, 'a_min')      # clip(x, floor, None) == maximum(x, floor)
+        elif is_call_to(a, 'numpy.maximum'):
+            x, fl = call_arg(a, 0), call_arg(a, 1)
+        else:
             ok_all = False
             continue
-        x, fl = call_arg(a, 0), call_arg(a, 1)
         has_floor = any(p.op == 'param' and p.args[0] == 'eigenvalue_floor' for p in walk_terms(fl))
         n_floor += has_floor
         ok_all = ok_all and has_floor
